@@ -175,7 +175,7 @@ OptMenu(f) ==
       [] MethodOf(f) = "maximization" ->
            << [mutation_rate |-> MU, population_size |-> NE],
               [mutation_rate |-> MU, population_size |-> NE, eps |-> "1e-06", probability_space |-> "\"linear\""],
-              [mutation_rate |-> MU, Ne |-> "50", num_threads |-> "2", min_branch_length |-> "0.001"],
+              [mutation_rate |-> MU, Ne |-> "50", num_threads |-> "0", min_branch_length |-> "0.001"],
               [mutation_rate |-> MU, population_size |-> "{\"population_size\": [100, 200], \"time_breaks\": [50]}",
                probability_space |-> "null", progress |-> "false"] >>
       [] f = "preprocess_ts" ->
